@@ -350,6 +350,6 @@ func TestC13_bounds(t *testing.T) {
 	kit.Check(t, kit.Prop[c13Case]{
 		ID: "C13", Quick: 5000, Thor: 500_000,
 		Rule: "one caller on a full (or free) limiter of each blocking kind; timeout/deadline, cancellation and release instants generated around the arrival and around the bound (incl. exactly at it) on a virtual clock; the caller's (ok, return instant) compared with a reference model, ties accept either answer at that instant; non-trivial = the caller really blocked and the case has a cancellation or the exact-deadline instant",
-		Gen:  genC13, Run: runC13,
+		Gen:  genC13, Run: runC13, Timeout: 30 * time.Second,
 	})
 }
